@@ -73,6 +73,28 @@ CLAIMED.update({
             "called directly.", "TLA+ placement theorems model-checked on a scaled machine + TLC trace validation of file records with exact limb arithmetic"),
 })
 
+FS = "DrfFs, MCDrfFs, DrfFsTrace, Runs, TraceBase"
+FS_TECH = "TLA+ spec of the publication protocol + TLC exhaustive model checking (crash, faults, reader interleavings); TLC trace validation of recordings stepped operation by operation under an LD_PRELOAD interposer"
+FS_NOTE = ("Trusted: TLC, the interposer (harness/fsshim/shim.c: it must see every mutating libc call HDF5 issues - open/creat/write/pwrite/"
+           "ftruncate/close/rename/unlink/remove/mkdir/rmdir; a future HDF5 using io_uring/mmap/pwritev would need it extended), the raw h5py "
+           "projection. Crash = process death with a surviving page cache (as the property says); power loss / fsync ordering is out of scope.")
+CLAIMED.update({
+    "C02": (FS, "E1: TLC explores every interleaving of the protocol's operations on 3 data files and the properties file, each possibly failing, "
+            "with a crash at any point and a listing/opening reader; FinalComplete, FinalImmutable, CrashSafe hold only because of the action "
+            "guards (enabling a forbidden step breaks them). E3: real recordings run in a subprocess that is stopped before every file-system "
+            "operation; each stop is a crash point at which the tree is projected (every final file decoded, tmp names, properties file, "
+            "listing, readers) and a sample of them is really SIGKILLed; TLC validates the operation sequence against the protocol and "
+            "judges every snapshot.", FS_NOTE, FS_TECH),
+    "C09": (FS, "Reader passes of a pool of long-lived DigitalRFReader objects (created at different moments of the recording) are taken between "
+            "every two file-system operations of the writer; TLC requires each pass to succeed, to equal exactly the finalized files at that "
+            "moment and never to shrink; E1 checks ReaderNeverFails / VisibilityMonotone over all interleavings of the protocol.",
+            FS_NOTE + " The free-running (unsynchronised) reader/writer variant is not built; the stepped schedule is the systematic one.", FS_TECH),
+    "C10": (FS, "Every single-fault schedule of a recording (each operation failing with ENOSPC or EIO, once or persistently) is executed through "
+            "the interposer; TLC validates the operation sequence and decides at the end: no unreadable or wrong final file, files finalized "
+            "before the fault unchanged, and - when an accepted sample is unreadable and a call was made after the failure - an error by the "
+            "faulted call or the next one, and refusal afterwards.", FS_NOTE, FS_TECH),
+})
+
 PENDING_REASON = "check not built yet in this round; the property is planned to be decided by the TLA+ module named in DESIGN.md section 5"
 
 
